@@ -71,7 +71,7 @@ claimed.update({
                      "(ranges, ports, interfaces, loopback), inbound TCP captured iff port included/not excluded/not the tunnel port, app loopback traffic left alone. "
                      "IPv4/IPv6 parity: for dual-stack configurations with paired address options the IPv4 and the IPv6 rule sets give corresponding symbolic packets the same verdict (OUTPUT and PREROUTING). "
                      "DNS capture (nat): application DNS goes to the agent's DNS port iff addressed to a captured server, the proxy's own DNS never does, and all other traffic is decided exactly as without DNS capture.",
-                note="Outside: TPROXY/mangle, raw-table conntrack zones, IPv6 DNS servers, IPv6 options without IPv4 counterpart, nftables, CNI in-pod rules, conntrack state, kernel semantics beyond the modelled matches.", ref="§4 C20"),
+                note="Also TPROXY mode: new inbound connections through the mangle table follow the same inbound policy (open finding F16: tunnel port). Outside: TPROXY established connections/marks/OUTPUT side, raw-table conntrack zones, IPv6 DNS servers, IPv6 options without IPv4 counterpart, nftables, CNI in-pod rules, conntrack state, kernel semantics beyond the modelled matches.", ref="§4 C20"),
 })
 
 claimed.update({
@@ -79,7 +79,7 @@ claimed.update({
                      "(and/or/not ids and rules, header/url_path/destination_port/authenticated/metadata matchers, safe_regex by structural translation) and compared with a reference reading of the AuthorizationPolicy rule "
                      "(values OR, notValues NOT(OR), exact/prefix*/*suffix/* forms for methods, paths, hosts, ports, principals, namespaces, requestPrincipals); TCP: an ALLOW rule with an HTTP-only field generates nothing, "
                      "a DENY rule matches exactly on its remaining conditions. The request (method, path, host, port, SPIFFE peer identity parts, JWT iss/sub) is symbolic.",
-                note="Outside: policy selection for a workload and filter ordering (builder.go), CUSTOM/AUDIT/dry-run, when-conditions, ipBlocks, path templates, trust-domain aliases, case folding. Open finding F10 (namespace suffix wildcard) is listed in KNOWN_FINDINGS.json.", ref="§4 C08"),
+                note="Outside: policy selection for a workload and filter ordering (builder.go), CUSTOM/AUDIT/dry-run, when-conditions, IPv6 blocks, path templates, case folding. Open finding F10 (namespace suffix wildcard) is listed in KNOWN_FINDINGS.json.", ref="§4 C08"),
 })
 
 claimed.update({
